@@ -278,8 +278,8 @@ def gen_calls(rng, T, n, modes="all"):
         elif k == 1: calls.append("gcb %d" % f)
         elif k == 2: calls.append("spcb %s %s %d" % (who, cs, f))
         elif k == 3: calls.append("gpcb %s %d" % (who, f))
-        elif k == 4: calls.append("stcb %s %d" % (cs, f))
-        elif k == 5: calls.append("gtcb %d" % f)
+        elif k == 4: calls.append("%s %s %d" % (rng.choice(["stcb", "stcbo"]), cs, f))
+        elif k == 5: calls.append("%s %d" % (rng.choice(["gtcb", "gtcbo"]), f))
         elif k == 6: calls.append("glcl %d" % f)
         elif k == 7: calls.append("gplcl %s %d" % (who, f))
         elif k == 8: calls.append("smb %s %d %d" % (mset(g), p, g))
@@ -302,7 +302,7 @@ def boundary_calls(T):
     for b in range(32):
         f = 1 << b
         res += ["scb %s %d" % (c, f), "gcb %d" % f, "spcb 0 %s %d" % (c, f), "gpcb 0 %d" % f, "stcb %s %d" % (c, f),
-                "gtcb %d" % f, "glcl %d" % f, "gplcl 0 %d" % f, "smb %s 2 %d" % (n if f == 32 else c, f), "gmb %d" % f,
+                "gtcb %d" % f, "stcbo %s %d" % (c, f), "gtcbo %d" % f, "glcl %d" % f, "gplcl 0 %d" % f, "smb %s 2 %d" % (n if f == 32 else c, f), "gmb %d" % f,
                 "spmb 0 %s 2 %d" % (n if f == 32 else c, f), "gpmb 0 %d" % f, "samb 4096 %s 2 %d" % (n if f == 32 else c, f),
                 "gamb 4096 %d" % f, "gaml 4096 %d" % f, "amb 4096 %s 2 %d" % (n if f == 32 else c, f)]
     for p in range(-3, 9):
@@ -371,7 +371,7 @@ def gen_os_state(rng):
     return lines
 
 
-CALL_RE = re.compile(r"^(scb|gcb|spcb|gpcb|stcb|gtcb|glcl|gplcl|smb|gmb|spmb|gpmb|samb|gamb|gaml|amb) ")
+CALL_RE = re.compile(r"^(scb|gcb|spcb|gpcb|stcbo|gtcbo|stcb|gtcb|glcl|gplcl|smb|gmb|spmb|gpmb|samb|gamb|gaml|amb) ")
 
 
 def parse_call(line):
@@ -379,8 +379,8 @@ def parse_call(line):
     t = line.split()
     c = t[0]
     d = {"cmd": c, "set": None, "policy": None, "len": None, "who": None}
-    if c in ("scb", "stcb"): d.update(set=BS.parse(t[1]), flags=int(t[2]))
-    elif c in ("gcb", "gtcb", "glcl", "gmb"): d.update(flags=int(t[1]))
+    if c in ("scb", "stcb", "stcbo"): d.update(set=BS.parse(t[1]), flags=int(t[2]))
+    elif c in ("gcb", "gtcb", "gtcbo", "glcl", "gmb"): d.update(flags=int(t[1]))
     elif c == "spcb": d.update(who=t[1], set=BS.parse(t[2]), flags=int(t[3]))
     elif c in ("gpcb", "gplcl", "gpmb"): d.update(who=t[1], flags=int(t[2]))
     elif c == "smb": d.update(set=BS.parse(t[1]), policy=int(t[2]), flags=int(t[3]))
